@@ -8,3 +8,7 @@ pub mod ec;
 pub mod linalg;
 pub mod qpoly;
 pub mod poly;
+pub mod prim;
+pub mod word;
+pub mod primes;
+pub mod sieve_model;
